@@ -3,6 +3,7 @@ package main
 // Evaluation of contract expressions in a symbolic state.
 
 import (
+	"sort"
 	"fmt"
 	"go/constant"
 	"go/token"
@@ -417,6 +418,7 @@ func (x *Exec) evalSel(env *Env, e *CSel) *Value {
 		}
 		hn, hs := x.fieldHeapName(el, idx)
 		v := &Value{T: app("select", x.heapIn(st, hn, hs), x.refTerm(base)), Typ: stt.Field(idx).Type()}
+		v.T = x.normFieldSlice(v.T, v.Typ)
 		return v
 	}
 	if stt, ok := structOf(t); ok {
@@ -731,7 +733,108 @@ func (x *Exec) evalQuant(env *Env, q *CQuant) *Value {
 	} else if len(guards) > 0 {
 		body = implies(and(guards...), body)
 	}
+	var names []string
+	for _, b := range binders {
+		names = append(names, strings.Fields(strings.Trim(b, "()"))[0])
+	}
+	if pat := autoPattern(body, names); pat != "" {
+		return boolV(fmt.Sprintf("(%s (%s) (! %s :pattern (%s)))", kw, strings.Join(binders, " "), body, pat))
+	}
 	return boolV(fmt.Sprintf("(%s (%s) %s)", kw, strings.Join(binders, " "), body))
+}
+
+// autoPattern chooses explicit triggers for a quantifier: array reads and
+// uninterpreted applications that mention the bound variables (never bare
+// arithmetic, which makes e-matching explode). Returns "" if the bound variables
+// cannot all be covered.
+func autoPattern(body string, vars []string) string {
+	type cand struct {
+		text string
+		vars map[string]bool
+	}
+	var cands []cand
+	isVar := map[string]bool{}
+	for _, v := range vars {
+		isVar[v] = true
+	}
+	var walk func(t string) map[string]bool
+	walk = func(t string) map[string]bool {
+		used := map[string]bool{}
+		if !strings.HasPrefix(t, "(") {
+			if isVar[t] {
+				used[t] = true
+			}
+			return used
+		}
+		parts := splitSexp(t[1 : len(t)-1])
+		if len(parts) == 0 {
+			return used
+		}
+		head := parts[0]
+		if head == "forall" || head == "exists" || head == "!" || head == "let" {
+			// do not look inside nested binders for triggers of the outer one
+			for _, p := range parts[1:] {
+				for v := range walk(p) {
+					used[v] = true
+				}
+			}
+			return used
+		}
+		for _, p := range parts[1:] {
+			for v := range walk(p) {
+				used[v] = true
+			}
+		}
+		if strings.HasPrefix(head, "(") {
+			for v := range walk(head) {
+				used[v] = true
+			}
+		}
+		ok := head == "select" || head == "sat" || head == "slen" || head == "rune_at" || head == "rune_w" || strings.HasPrefix(head, "sp_") || head == "ssub" || head == "scat"
+		if ok && len(used) > 0 && !strings.Contains(t, "(forall ") && !strings.Contains(t, "(exists ") && !strings.Contains(t, "(ite ") {
+			cands = append(cands, cand{t, used})
+		}
+		return used
+	}
+	walk(body)
+	if len(cands) == 0 {
+		return ""
+	}
+	// prefer small terms; greedily cover the variables
+	sort.Slice(cands, func(i, j int) bool { return len(cands[i].text) < len(cands[j].text) })
+	covered := map[string]bool{}
+	var chosen []string
+	for _, c := range cands {
+		adds := false
+		for v := range c.vars {
+			if !covered[v] {
+				adds = true
+			}
+		}
+		if !adds {
+			continue
+		}
+		dup := false
+		for _, ch := range chosen {
+			if ch == c.text {
+				dup = true
+			}
+		}
+		if dup {
+			continue
+		}
+		chosen = append(chosen, c.text)
+		for v := range c.vars {
+			covered[v] = true
+		}
+		if len(covered) == len(vars) {
+			break
+		}
+	}
+	if len(covered) != len(vars) {
+		return ""
+	}
+	return strings.Join(chosen, " ")
 }
 
 // ---------------------------------------------------------------------------
